@@ -29,7 +29,7 @@ func init() {
 		},
 		Strata: []fw.Stratum{
 			{Name: "h264-loss-subsets", N: fw.Const(10000, 300000), Run: c15H264},
-			{Name: "large-pending-fragments", N: fw.Const(6, 60), Run: c15Large},
+			{Name: "large-pending-fragments", N: fw.Const(16, 120), Run: c15Large},
 			{Name: "av1-loss-subsets", N: fw.Const(10000, 300000), Run: c15AV1},
 		},
 	})
@@ -375,6 +375,19 @@ func c15Large(c *fw.Ctx, i int) {
 	r := c.R
 	frag := r.Pick(1<<16, 1<<20, 3<<19, 1<<21)
 	nfr := r.Pick(3, 5, 9)
+	delivers := [][2]int{{0, nfr - 1}, {0, 1}, {1, nfr - 1}, {0, nfr}}
+	if i%4 >= 2 {
+		// the other extreme: an abandoned unit of very many tiny fragments, of which exactly 255, 256, 257, 512, 65536 ... were delivered
+		frag = r.Pick(0, 1, 2, 7)
+		nfr = r.Pick(300, 600, 1025, 65600)
+		delivers = nil
+		for _, d := range []int{255, 256, 257, 511, 512, 513, 1024, 65535, 65536, 65537} {
+			if d < nfr {
+				delivers = append(delivers, [2]int{0, d})
+			}
+		}
+		delivers = append(delivers, [2]int{0, nfr - 1}, [2]int{1, 257})
+	}
 	if i%2 == 0 {
 		avc := r.Bool()
 		var frame1 [][]byte
@@ -394,7 +407,7 @@ func c15Large(c *fw.Ctx, i int) {
 			name = "h264-avc"
 		}
 		fresh, _, _ := c15Feed(&codecs.H264Packet{IsAVC: avc}, frame2)
-		for _, deliver := range [][2]int{{0, nfr - 1}, {0, 1}, {1, nfr - 1}, {0, nfr}} {
+		for _, deliver := range delivers {
 			d := &codecs.H264Packet{IsAVC: avc}
 			if _, pv, st := c15Feed(d, frame1[deliver[0]:deliver[1]]); pv != nil {
 				c.Fail("C15/"+name+"/panic-in-history/"+fw.PanicFunc(st), fmt.Sprintf("panicked on large fragments: %v", pv), fw.W("fragment_bytes", frag, "fragments", nfr, "stack", st))
@@ -418,6 +431,9 @@ func c15Large(c *fw.Ctx, i int) {
 		return
 	}
 	// AV1: one OBU spread over nfr packets of `frag` bytes each
+	if frag == 0 {
+		frag = 1 // an OBU element is never empty
+	}
 	var frame1 [][]byte
 	for q := 0; q < nfr; q++ {
 		b := byte(0x10) // W=1
@@ -438,7 +454,7 @@ func c15Large(c *fw.Ctx, i int) {
 		return
 	}
 	fresh, _, _ := c15Feed(&codecs.AV1Depacketizer{}, frame2)
-	for _, deliver := range [][2]int{{0, nfr - 1}, {0, 1}, {1, nfr - 1}, {0, nfr}} {
+	for _, deliver := range delivers {
 		d := &codecs.AV1Depacketizer{}
 		if _, pv, st := c15Feed(d, frame1[deliver[0]:deliver[1]]); pv != nil {
 			c.Fail("C15/av1/panic-in-history/"+fw.PanicFunc(st), fmt.Sprintf("panicked on large fragments: %v", pv), fw.W("fragment_bytes", frag, "fragments", nfr, "stack", st))
